@@ -65,6 +65,9 @@ def _call(cs, f, s):
         return s.loc[C.py_loc_key(cs['rk'])]
     if op == 's_getitem':
         return s[C.py_loc_key(cs['rk'])]
+    if op == 's_iloc_loc':
+        r1 = s.iloc[C.py_iloc_key(cs['rk'])]
+        return r1.loc[C.py_loc_key(cs['rk2'])] if isinstance(r1, sf.Series) else r1
     # ---- C08
     if op == 'f_assign':
         via = cs['via']
